@@ -11,7 +11,7 @@ import (
 
 func init() {
 	register(&PropDef{
-		ID: "C19", Level: "exploration", Quick: 40000, Thorough: 3000000, QuickCap: 100,
+		ID: "C19", Level: "exploration", Quick: 400000, Thorough: 3000000, QuickCap: 100,
 		Rule: "each run = 2-4 tasks x 1-3 rounds over 1-2 keys calling Lock/Unlock/Run on the real TransientLockMap, with 0-2 context-cancel events and optional bad-unlock calls, interleaved at every internal step by the seeded scheduler; distinct = distinct hash of the (task, scheduling point) trace; non-trivial = at least one preemption or one cancel event",
 		Real: []string{"gcsutil.TransientLockMap (Lock, Unlock, Run, returnLockObj)", "gcsutil.countedLock"},
 		Stub: []string{"Go channel blocking in countedLock.Lock is replaced by a wait-until in front of it (the simulator decides the order of cancel and unlock events, so the two-ready-cases select is never reached with both ready)"},
